@@ -397,3 +397,8 @@ def run(rep, tier):
         rep.check(ok, 'R09.8', 'processSend|%s -> %s' % (o_.get('t'), x.get('t')), locstr(x), 'the floating value `%s` is converted to %s %s' % (
             otext[:50], x.get('t'), 'under a range test of that value' if ok else 'WITHOUT a range test: a delay in seconds above 4294967 wraps and the event is delivered early, before events with smaller delays'))
     rep.ok('R09.8', 'processSend|conversions', '%d conversions from a floating type to an integer type in processSend' % len(convs))
+
+    # ---- R09.9 a delivery in flight when the interpreter is destroyed
+    rep.rule('R09.9', 'no use of freed memory when destruction races with delivery: the destructor of the interpreter is rid of the delayed queue (joining the timer thread) before the members eventReady() uses are destroyed')
+    from . import C10
+    C10.timer_joined_before_members(rep, fb, 'R09.9')
